@@ -3,6 +3,7 @@
 R15.1 a terminal QueryAction leaves next_action only through on_query_succeeded / on_query_failed, which remove the query;
       nothing else removes from QueryEngine.queries
 R15.2 the dispatchers over QueryType have no catch-all arm and forward every variant to the same-named context method
+R15.4 (K1) an accepted response always feeds the candidate set and marks the responder queried
 R15.3 candidate filters never admit a queried peer, a pending peer or the local node
 Not decided: termination, closest-set condition, parallelism bound, ordering (value/history reasoning).
 """
@@ -125,8 +126,37 @@ def r15_3(ctx, fx):
     ctx.anchor("R15.3", "candidate filter closures", n, 3, cfg=fx.cfg)
 
 
+def r15_4(ctx, fx):
+    """every accepted response feeds the candidate set: from the edge where the responder was found in `pending`, every exit of
+    register_response passes the candidate intake (filter + insertion loop) - the peers a responder names are never discarded
+    because of where the responder itself ranks"""
+    from paths import refine_cuts
+    n = 0
+    for key in sorted(fx.find(r"^protocol::libp2p::kademlia::query::(find_node|get_record|get_providers)::\w+::register_response$")):
+        fn = fx.fn(key)
+        rm = [c for c in fn.calls(r"HashMap(<.*>)?::remove$") if ".pending" in fn.recv(c)]
+        fm = [c for c in fn.calls(r"Iterator>?::filter_map$|Iterator>?::filter$")]
+        ins = [c for c in fn.calls(r"BTreeMap(<.*>)?::insert$") if ".candidates" in fn.recv(c)]
+        if not rm or not ins:
+            continue
+        n += 1
+        ctx.bodies.add((fx.cfg, key))
+        nxt = [c for c in fn.calls(r"Iterator>?::next$") if ins[0].node in fn.reach([c.node], after=True) and c.node in fn.reach([ins[0].node], after=True)]
+        intake = [c.node for c in nxt] or [c.node for c in fm]
+        cuts = refine_cuts(fn, rm[0], ["Some", "?"])
+        p = fn.witness_path([rm[0].node], [x for x, _ in fn.exits()], avoid=intake, cut=cuts, after=True)
+        ctx.ob("R15.4", "%s/accepted-response-always-feeds-candidates" % short(key), bool(intake) and p is None, site=fn.site(rm[0].node), cfg=fx.cfg,
+               detail="a path from an accepted response to an exit that skips the candidate intake: %s" % (fn.path_sites(p) if p else None))
+        # and always marks the responder as queried
+        q = [c.node for c in fn.calls(r"HashSet(<.*>)?::insert$") if ".queried" in fn.recv(c)]
+        p2 = fn.witness_path([rm[0].node], [x for x, _ in fn.exits()], avoid=q, cut=cuts, after=True)
+        ctx.ob("R15.4", "%s/responder-marked-queried" % short(key), bool(q) and p2 is None, site=fn.site(rm[0].node), cfg=fx.cfg)
+    ctx.anchor("R15.4", "register_response bodies with a candidate intake", n, 3, cfg=fx.cfg)
+
+
 def run(ctx):
     fx = ctx.facts("default")
+    r15_4(ctx, fx)
     r15_1(ctx, fx)
     r15_2(ctx, fx)
     r15_3(ctx, fx)
